@@ -251,3 +251,48 @@ func H_C02_precedence() {
 	verif.Assert(verif.Eq(got, want), "projection")
 	verif.Reach("end")
 }
+
+// H_C02_null_binary: as above without the unary item, NULL rows included.
+func H_C02_null_binary() {
+	n := verif.Choose("rows", maxRows(2, 3)+1)
+	op1 := verif.Choose("op1", 4)
+	op2 := verif.Choose("op2", 4)
+	rows := make([]Map, n)
+	arr := make([]any, n)
+	kind := make([]int, n)
+	for i := range rows {
+		a := verif.F64("a")
+		verif.Assume(a == a)
+		r := Map{"a": a}
+		kind[i] = verif.Choose("b", 3)
+		switch kind[i] {
+		case 0:
+			b := verif.F64("b")
+			verif.Assume(b == b)
+			r["b"] = b
+		case 1:
+			r["b"] = nil
+		}
+		rows[i], arr[i] = r, r
+	}
+	c := verif.F64("c")
+	o1, o2 := arithOps[op1], arithOps[op2]
+	got, ok := runQuery(Map{"t": arr}, verif.SQL("SELECT (a "+o1+" b) "+o2+" ? AS l, ? "+o2+" (b "+o1+" a) AS r, (a "+o1+" ?) "+o2+" (b "+o1+" a) AS d, a "+o2+" ? AS plain FROM t", c, c, c, c))
+	if !ok {
+		return
+	}
+	var want []any
+	for i, r := range rows {
+		a := f64of(r["a"])
+		row := Map{"plain": refArith(op2, a, c), "l": nil, "r": nil, "d": nil}
+		if kind[i] == 0 {
+			b := f64of(r["b"])
+			row["l"] = refArith(op2, refArith(op1, a, b), c)
+			row["r"] = refArith(op2, c, refArith(op1, b, a))
+			row["d"] = refArith(op2, refArith(op1, a, c), refArith(op1, b, a))
+		}
+		want = append(want, row)
+	}
+	verif.Assert(verif.Eq(got, want), "projection")
+	verif.Reach("end")
+}
